@@ -41,6 +41,14 @@ func gen(tier string) []proto.Item {
 					s := base(v, dest)
 					s.Faults = []simnet.Fault{{Op: op, K: -1, Class: cl}}
 					items = append(items, proto.Item{Scn: s, Class: fmt.Sprintf("%s/dest-%d/%s/%s", v, dest, op, cl)})
+					if dest == 3 && (op == "Read" || op == "SetReadDeadline") {
+						// a hop that stays silent: its listening window is polled until it runs out, so "the k-th call" also
+						// covers the poll during which the window expires
+						s2 := base(v, dest)
+						s2.Hops = map[int]proto.HopSpec{2: {Silent: true}}
+						s2.Faults = []simnet.Fault{{Op: op, K: -1, Class: cl}}
+						items = append(items, proto.Item{Scn: s2, Class: fmt.Sprintf("%s/dest-%d/silent-hop/%s/%s", v, dest, op, cl)})
+					}
 				}
 			}
 		}
@@ -56,7 +64,7 @@ var (
 func baseline(it *proto.Item) string {
 	b := it.Scn
 	b.Faults = nil
-	k := fmt.Sprintf("%s/%d", b.Variant, b.Dest)
+	k := fmt.Sprintf("%s/%d/%v", b.Variant, b.Dest, b.Hops)
 	mu.Lock()
 	defer mu.Unlock()
 	if v, ok := bases[k]; ok {
